@@ -205,7 +205,7 @@ Inductive fail : Type :=
 | F04_many (k : N) (inst : bytes)
 | F04_labels (k : N) (ls : list bytes)
 | F05_alive (k ch : N) (ty inst : bytes)
-| F05_dead (k ch : N) (ty inst : bytes) (ptr_soon : bool)    (* ptr_soon: every PTR of it is in its last second *)
+| F05_dead (k ch : N) (ty inst : bytes) (ptr_soon srv_live : bool)  (* ptr_soon: every PTR of it is in its last second; srv_live: an SRV of it is unexpired *)
 | F05_wake (k ch : N) (ty inst : bytes)
 | F05_again (k ch : N) (inst : bytes).
 
@@ -270,7 +270,9 @@ Definition step05 (ifs : iftab) (k : N) (t : t05) (it : iter) (wake : option N) 
   let fsT := flat_map (fun u => if alive_weak (sp_c sp3) now (fst (snd u)) (snd (snd u)) then []
                                else [F05_dead k (fst u) (fst (snd u)) (snd (snd u))
                                        (negb (existsb (fun p => negb (expires_soon p now))
-                                                      (ptr_entries (sp_c sp3) (fst (snd u)) (snd (snd u)))))]) ups2 in
+                                                      (ptr_entries (sp_c sp3) (fst (snd u)) (snd (snd u)))))
+                                       (existsb (fun e => negb (is_expired e now))
+                                                (srv_entries (sp_c sp3) (snd (snd u))))]) ups2 in
   let fsW := flat_map (fun u =>
                let ok := match wake with
                          | Some w => w <=? death_time (sp_c sp3) (fst (snd u)) (snd (snd u))
